@@ -5,7 +5,7 @@ Each module exposes ``register(reg)``; `build_registry()` assembles them.  Contr
 """
 import importlib
 
-MODULES = ['C01_aperture_geometry', 'C11_background', 'C19_profiles', 'C12_psf', 'C02_photometry', 'C16_aperture_stats', 'C14_peaks', 'C13_psf_models', 'C03_covariance', 'C20_isophote', 'C04_detect', 'C07_catalog', 'C05_segmentation', 'C17_centroids', 'C12_bookkeeping', 'C06_deblend', 'C11_parameters', 'C18_model_image', 'C15_errors']
+MODULES = ['U01_cutouts', 'C01_aperture_geometry', 'C11_background', 'C19_profiles', 'C12_psf', 'C02_photometry', 'C16_aperture_stats', 'C14_peaks', 'C13_psf_models', 'C03_covariance', 'C20_isophote', 'C04_detect', 'C07_catalog', 'C05_segmentation', 'C17_centroids', 'C12_bookkeeping', 'C06_deblend', 'C11_parameters', 'C18_model_image', 'C15_errors']
 
 
 def build_registry():
